@@ -273,6 +273,42 @@ PEER_HANDLERS = [
 ]
 
 
+def prove_peer_queue_leaves_processing(src_root, ex: Explorer):
+    """(for C05) a repeated PeerTransferQueue for an upload that is QUEUED, INITIALIZING or UPLOADING changes nothing: the upload keeps its
+    state object (an INITIALIZING upload put back to QUEUED keeps its initialisation task running and is initialised a second time - two
+    slots for one transfer, or two uploads to one user), nobody is notified, no task is started"""
+    def path(ctx: Ctx):
+        it = mk(src_root, ctx)
+        effects: list = []
+        C03.install_env(it, ctx, effects)
+        sname = ['QueuedState', 'InitializingState', 'UploadingState'][ctx.choose(3, 'state')]
+        notified: list = []
+        t, lock = C03.mk_transfer(it, ctx, 'UPLOAD', notified)
+        st = it.call(cls(it, STATE, sname), [t], {})
+        t.attrs['state'] = st
+        running = A.TaskVal(it.aio, None, 'initialize-upload (running)') if sname != 'QueuedState' else None
+        t.attrs['_transfer_task'] = running
+        it.hooks[f'{MGR}:TransferManager.find_transfer'] = lambda it2, f, a, k: t
+        it.hooks[f'{MGR}:TransferManager.request_management_cycle'] = lambda it2, f, a, k: None
+        sentm = []
+        conn = Stub('connection', username='user', send_message=Recorder('send', fn=lambda it2, a, k: sentm.append(a[0]), is_async=True),
+                    queue_message=Recorder('queue_message', fn=lambda it2, a, k: sentm.append(a[0])))
+        settings = Stub('settings', users=Stub('users', is_blocked=Recorder('is_blocked', ret=False)))
+        shares = Stub('shares', find_shared_item=Recorder('find_shared_item', ret=Stub('item'), is_async=True))
+        mgr = new(it, MGR, 'TransferManager', _settings=settings, _shares_manager=shares, _transfers=[t])
+        before = list(it.aio.tasks)
+        tag = sname[:-5].upper()
+        try:
+            run(it, it.getattr(mgr, '_on_peer_transfer_queue'), Stub('PeerTransferQueue', filename='path'), conn)
+        except PyRaise as pr:
+            ctx.fail(f'C05.peer-queue.leaves-processing-upload[{tag}]', repr(pr.exc))
+            return
+        new_tasks = [x for x in it.aio.tasks if not any(x is b for b in before)]
+        ctx.prove(f'C05.peer-queue.leaves-processing-upload[{tag}]', t.attrs['state'] is st and not notified and not new_tasks and t.attrs['_transfer_task'] is running,
+                  f'a repeated queue request changed an upload that is {tag}: state object replaced={t.attrs["state"] is not st}, notifications={len(notified)}')
+    ex.run(path, 'peer-queue-processing')
+
+
 def prove_peer_messages_after_stop(src_root, ex: Explorer):
     """A transfer the USER aborted or paused is not brought back by the peer's messages about the same file: for every peer message that
     designates the transfer (repeated queue request, transfer request in both directions, upload failed, queue failed) and the real
